@@ -270,6 +270,10 @@ func (c *crashCtx) checkImage(d *simfs.Disk, admissible []*refLog, replay []stri
 	c.opens++
 	if err != nil {
 		c.add("C03", "Open failed on a directory state a crash can leave behind", err.Error(), replay)
+		if len(admissible) > 0 && len(admissible[0].entries) > 0 {
+			// C01: "every later Open of the same directory succeeds and GetLog returns that entry"
+			c.add("C01", "Open fails on a directory that holds acknowledged entries", err.Error(), replay)
+		}
 		return nil, nil
 	}
 	first, last, entries, rerr := readAll(w)
@@ -647,7 +651,9 @@ func (c *crashCtx) exploreCrashes(start *simfs.Disk, base *refLog, ops []string,
 		{
 			img := tr.ProcessCrash()
 			c.dist["process-crash"]++
+			img0 := img.Clone() // the image as the crash left it: recovery and the continuation below write to `img`
 			if w2, g2 := c.checkImage(img, adm, append(rp, "kind: process crash")); w2 != nil {
+				gPre := g2.clone()
 				c.truncateAllProbe(img, g2, append(rp, "kind: process crash"))
 				ok := c.continuation(w2, img, g2, r, append(rp, "kind: process crash"))
 				w2.Close()
@@ -657,8 +663,27 @@ func (c *crashCtx) exploreCrashes(start *simfs.Disk, base *refLog, ops []string,
 				// a process crash that left un-fsynced bytes or directory entries behind is always followed up: the
 				// restarted process must make what it recovered durable before building on it (a later power loss
 				// would otherwise take acknowledged entries with it)
+				// … and so is a process crash inside the background rotation that follows an acknowledged sealing append (the
+				// recovery then has to complete the rotation: a meta commit and a file creation of its own, each of which
+				// can be cut again — every point of that recovery is visited)
+				inRot := false
+				for k, sp := range spans {
+					end := points
+					if k+1 < len(spans) {
+						end = spans[k+1].start
+					}
+					if strings.HasPrefix(sp.op, "store") && sp.ack <= i && i < end && sp.ack < end {
+						inRot = true
+					}
+				}
 				if ok && depth > 1 && (r.Intn(3) == 0 || hasPending(tr) || len(tr.NonDurableEntries()) > 0) {
 					c.exploreCrashes(img, g2, []string{"open", fmt.Sprintf("store %s", logTok(&raft.Log{Index: g2.lastIndex() + 1, Term: 10, Data: []byte("chain")}))}, r, depth-1, append(rp, "kind: process crash", "continued"), hasPending(tr))
+				}
+				if depth > 1 && inRot {
+					// from the image as the crash left it: the Open that has to complete the rotation is itself cut at
+					// every one of its I/O boundaries
+					c.dist["recovery-of-interrupted-rotation-cut"]++
+					c.exploreCrashes(img0, gPre, []string{"open", fmt.Sprintf("store %s", logTok(&raft.Log{Index: gPre.lastIndex() + 1, Term: 11, Data: []byte("chain2")}))}, r, depth-1, append(rp, "kind: process crash", "restarted from that image"), true)
 				}
 			}
 		}
